@@ -150,7 +150,7 @@ pub fn ends_lattice(kind: u8, custom: &[f64], positive: bool) -> Vec<f64> {
             _ => custom.iter().map(|x| x.abs().clamp(0.05, 20.0)).collect(),
         }
     } else {
-        match kind % 8 {
+        match kind % 9 {
             0 => vec![-2.0, -1.0, -0.0, 0.0, 5e-324, 1.0, one_up, 2.0, 3.0, 1e300],
             1 => vec![f64::NEG_INFINITY, -f64::MAX, -1.0, 0.0, 1.0, next_up(1.0), f64::MAX, f64::INFINITY],
             2 => vec![1.0, 2.0, 3.0, 4.0, 5.0, 6.0, 7.0, 8.0],
@@ -159,6 +159,12 @@ pub fn ends_lattice(kind: u8, custom: &[f64], positive: bool) -> Vec<f64> {
             4 => (-32..=32).map(|k| k as f64).collect(),
             5 => (0..=64).map(|k| 0.1 * k as f64).collect(),
             6 => (0..=64).map(|k| -1.3 + 0.07 * k as f64).collect(),
+            7 => {
+                // EXACTLY evenly spaced grids k·w with spacings whose reciprocal is inexact (index = (x-x0)*(1/w) slips)
+                let ws = [3.0, 7.0, 49.0, 98.0, 103.0, 107.0, 10.0, 100.0, 365.0, 1000.0, 0.25, 1e6];
+                let w = ws[(custom.first().map_or(0, |c| c.to_bits() >> 7) % ws.len() as u64) as usize];
+                (0..=64).map(|k| k as f64 * w).collect()
+            }
             _ => custom.to_vec(),
         }
     };
@@ -175,7 +181,7 @@ pub fn ends_lattice(kind: u8, custom: &[f64], positive: bool) -> Vec<f64> {
 /// segments and ends one ulp apart are common.
 pub fn ends(max_len: usize, positive: bool) -> BoxedStrategy<Vec<f64>> {
     let custom_elem = if positive { scaled_pos(-4, 4).boxed() } else { any_non_nan() };
-    (0u8..16, vec(custom_elem, 1..8), vec(any::<u16>(), 1..=max_len), 0u8..8, any::<u16>())
+    (0u8..18, vec(custom_elem, 1..8), vec(any::<u16>(), 1..=max_len), 0u8..8, any::<u16>())
         .prop_map(move |(kind, custom, picks, mode, start)| {
             let l = ends_lattice(kind, &custom, positive);
             let mut e: Vec<f64> = if mode == 0 {
